@@ -843,6 +843,7 @@ def set_item(ip, obj, idx, v):
     if is_ref(obj):
         ci = CLASSES[obj.ty.cls]
         if ci.kind == "odict":
+            ip.ctx.unit.before_container_store(ip, obj, idx, v)  # ghost bookkeeping of the unit, if any
             return od_setitem(ip, obj, idx, v)
     r = ip.ctx.unit.set_item(ip, obj, idx, v)
     if r is not NotImplemented:
